@@ -792,6 +792,7 @@ def _worker_init() -> None:
     """
 
     logger.setLevel(logging.WARNING)
+    np.random.seed()  # Workers created by forking inherit the parent's random state, so re-seed to prevent every worker producing the same samples
 
 
 def parallel_progress(fcn, inputs, num_workers=None, show_progress=True) -> list:
